@@ -320,6 +320,10 @@ func (x *Exec) builtin(e *ast.CallExpr, st *State, name string) Value {
 				// make([]T, len, cap): the capacity is what is allocated
 				ct := x.info.TypeOf(e.Args[2])
 				cn := x.toIdx(x.exprT(e.Args[2], st, types.Typ[types.Int]), ct)
+				// make panics unless 0 <= len <= cap
+				if gc := x.ar.le(n, cn, idxII); !gc.IsTrue() {
+					x.oblige(st, "makelen", x.site("makelen", e)+".cap", "", gc, e.Pos())
+				}
 				x.allocCheck(st, cn, e)
 			} else {
 				x.allocCheck(st, n, e)
